@@ -107,6 +107,8 @@ fn plan(prop: &str, tier: &str, scale: f64) -> Plan {
             p.w1_small = 8000;
             p.w1_large = 120;
             p.w2_n = 0;
+            // generation churn belongs to the battery too: where recycled nodes land, when slots retire
+            p.w3 = vec![(1, 40_000, 0), (2, 70_000, 2), (3, 60_000, 1)];
         }
         _ => {}
     }
